@@ -31,9 +31,15 @@ for d in dirs:
     checks = {}
     try:
         for p in props:
-            rc, out = sh(f"/verif/bin/verif check {p} --tier {tier}")
+            # first a prefix of the tier's run indices (same seed, same tapes: a violation found there is found by the
+            # full tier as well); the full tier only when the prefix is clean
+            rc, out = sh(f"/verif/bin/verif check {p} --tier {tier} --runs 30000")
+            full = False
+            if rc != 1:
+                full = True
+                rc, out = sh(f"/verif/bin/verif check {p} --tier {tier}")
             rules = sorted(set(re.findall(r'^\s+rule=(\S+) sig=(\S+)', out, re.M)))
-            checks[p] = {"tier": tier, "exit": rc, "caught": rc == 1, "rules": [f"{r} [{s}]" for r, s in rules][:8]}
+            checks[p] = {"tier": tier, "runs": "all" if full else "first 30000 of the tier", "exit": rc, "caught": rc == 1, "rules": [f"{r} [{s}]" for r, s in rules][:8]}
             print(mid, p, "exit", rc, [f"{r} [{s}]" for r, s in rules][:3], flush=True)
     finally:
         sh("git checkout -- .", "/repo")
